@@ -1,11 +1,12 @@
 package sym
 
 import (
-	"os"
 	"fmt"
 	"go/constant"
 	"go/token"
 	"go/types"
+	"golang.org/x/tools/go/ssa/ssautil"
+	"os"
 	"runtime"
 	"sort"
 	"strings"
@@ -268,6 +269,8 @@ type Ctx struct {
 	objN         int
 	symN         int
 	globals      map[*ssa.Global]*Object
+	mgOnce       sync.Once
+	mutGlobals   []*ssa.Global
 	nextErrCode  uint64
 	globalHeap   map[*Object]Value
 	initDone     map[*ssa.Package]bool
@@ -283,6 +286,58 @@ func NewCtx(prog *ssa.Program) *Ctx {
 	return &Ctx{Prog: prog, Intrinsics: map[string]Intrinsic{}, Contracts: map[string]Contract{},
 		globals: map[*ssa.Global]*Object{}, globalHeap: map[*Object]Value{}, initDone: map[*ssa.Package]bool{}, initFinished: map[*ssa.Package]bool{},
 		MaxPaths: 20000, MaxVisits: 40, Notes: map[string]bool{}}
+}
+
+// MutableGlobals returns the package-level variables of the module under check that some function other than a
+// package initialiser writes to (store or map update through the variable's address). Their value at the entry of a
+// function under verification is unknown: an earlier call may have changed it.
+func (cx *Ctx) MutableGlobals() []*ssa.Global {
+	cx.mgOnce.Do(func() {
+		var root func(v ssa.Value, depth int) *ssa.Global
+		root = func(v ssa.Value, depth int) *ssa.Global {
+			if depth > 8 {
+				return nil
+			}
+			switch x := v.(type) {
+			case *ssa.Global:
+				return x
+			case *ssa.FieldAddr:
+				return root(x.X, depth+1)
+			case *ssa.IndexAddr:
+				return root(x.X, depth+1)
+			case *ssa.ChangeType:
+				return root(x.X, depth+1)
+			case *ssa.UnOp: // load of a global holding a map / pointer, then written through
+				return root(x.X, depth+1)
+			}
+			return nil
+		}
+		seen := map[*ssa.Global]bool{}
+		for fn := range ssautil.AllFunctions(cx.Prog) {
+			if fn.Pkg == nil || !strings.HasPrefix(fn.Pkg.Pkg.Path(), "github.com/free5gc/nas") {
+				continue
+			}
+			if fn.Name() == "init" || strings.HasPrefix(fn.Name(), "init#") {
+				continue
+			}
+			for _, b := range fn.Blocks {
+				for _, in := range b.Instrs {
+					var g *ssa.Global
+					switch x := in.(type) {
+					case *ssa.Store:
+						g = root(x.Addr, 0)
+					case *ssa.MapUpdate:
+						g = root(x.Map, 0)
+					}
+					if g != nil && !seen[g] && g.Pkg != nil && strings.HasPrefix(g.Pkg.Pkg.Path(), "github.com/free5gc/nas") {
+						seen[g] = true
+						cx.mutGlobals = append(cx.mutGlobals, g)
+					}
+				}
+			}
+		}
+	})
+	return cx.mutGlobals
 }
 
 func (cx *Ctx) Note(s string) {
